@@ -287,9 +287,9 @@ def run_build(ctx, rng, pool, root, assign, out_state, out_fmt, lua_from_file):
         ctx.violation('empty default music has a non-silent channel', case)
 
 
-def run_error(ctx, rng, pool, root):
+def run_error(ctx, rng, pool, root, index=0):
     from pico8 import tool
-    kind = rng.choice(('conflict', 'missing', 'wrongext', 'lua_for_data', 'bad_out_ext'))
+    kind = ('conflict', 'missing', 'wrongext', 'lua_for_data', 'bad_out_ext')[index % 5]
     out_fmt = rng.choice(('p8', 'png'))
     out = os.path.join(root, 'eout.p8' if out_fmt == 'p8' else 'eout.p8.png')
     for f in (os.path.join(root, 'eout.p8'), os.path.join(root, 'eout.p8.png'), os.path.join(root, 'eout.txt')):
@@ -303,7 +303,7 @@ def run_error(ctx, rng, pool, root):
         with open(out, 'wb') as fh:
             fh.write(data)
         before = data
-    sec = rng.choice(SECTIONS)
+    sec = SECTIONS[(index // 5) % 6]
     good = rng.choice(pool.items['p8'])['path']
     argv = ['-q', 'build', out]
     # some valid arguments first, so that an implementation that writes early is caught
@@ -356,8 +356,8 @@ def run_shard(spec, ctx):
     try:
         pool = Pool(rng, root)
         if spec['kind'] == 'errors':
-            for _ in range(spec['count']):
-                run_error(ctx, rng, pool, root)
+            for k in range(spec['count']):
+                run_error(ctx, rng, pool, root, k)
             ctx.sample({'error_classes': ['conflict', 'missing', 'wrongext', 'lua_for_data', 'bad_out_ext']})
             return
         if spec['kind'] == 'random':
